@@ -165,8 +165,8 @@ def run(ctx: Ctx, replay: str | None) -> None:
     pool_mod = 12 if quick else 10
     cands = sorted((t for t in d1 if t["ok"] and t["depth"] == 1), key=lambda t: json.dumps(t["term"], sort_keys=True))
     pool = [t["term"] for t in cands if t["hash"] % pool_mod == ctx.seed % pool_mod]
-    mod1 = 12 if quick else 2
-    mod2 = 1000 if quick else 500
+    mod1 = 12 if quick else 3
+    mod2 = 1000 if quick else 800
     cfg2 = (base.replace("Mod1 = 12", f"Mod1 = {mod1}").replace("Pick1 = 0", f"Pick1 = {ctx.seed % mod1}")
             .replace("Mod2 = 1000", f"Mod2 = {mod2}").replace("Pick2 = 0", f"Pick2 = {ctx.seed % mod2}"))
     if not quick:
